@@ -999,6 +999,7 @@ enum {
 	ITER_METHOD_NORMAL,
 	ITER_METHOD_NEXT,
 	ITER_METHOD_LEFTMOST,
+	ITER_METHOD_EMPTY,
 };
 
 
@@ -1016,7 +1017,7 @@ iter_set_info(lzma_index_iter *iter)
 	if (group == NULL) {
 		// There are no groups.
 		assert(stream->groups.root == NULL);
-		iter->internal[ITER_METHOD].s = ITER_METHOD_LEFTMOST;
+		iter->internal[ITER_METHOD].s = ITER_METHOD_EMPTY;
 
 	} else if (i->streams.rightmost != &stream->node
 			|| stream->groups.rightmost != &group->node) {
@@ -1139,6 +1140,11 @@ lzma_index_iter_next(lzma_index_iter *iter, lzma_index_iter_mode mode)
 	const index_group *group = NULL;
 	size_t record = iter->internal[ITER_RECORD].s;
 
+	// Set if the iterator was pointing to a Stream that had no Blocks
+	// and Blocks have been appended to it since: the first of them is
+	// the next Block, not an already visited one.
+	bool first_in_stream = false;
+
 	// If we are being asked for the next Stream, leave group to NULL
 	// so that the rest of the this function thinks that this Stream
 	// has no groups and will thus go to the next Stream.
@@ -1157,6 +1163,12 @@ lzma_index_iter_next(lzma_index_iter *iter, lzma_index_iter_mode mode)
 		case ITER_METHOD_LEFTMOST:
 			group = (const index_group *)(
 					stream->groups.leftmost);
+			break;
+
+		case ITER_METHOD_EMPTY:
+			group = (const index_group *)(
+					stream->groups.leftmost);
+			first_in_stream = group != NULL;
 			break;
 		}
 	}
@@ -1179,6 +1191,11 @@ again:
 
 		// Start from the first Record in the Stream.
 		group = (const index_group *)(stream->groups.leftmost);
+		record = 0;
+
+	} else if (first_in_stream) {
+		// Blocks were appended to a Stream that was empty.
+		first_in_stream = false;
 		record = 0;
 
 	} else if (group != NULL && record < group->last) {
